@@ -6,7 +6,7 @@ under the repository's module path, so the code under test stays the code in
 """
 import json, os, re
 
-REPO = os.environ.get("VERIF_REPO", "/repo")
+REPO = os.environ.get("VERIF_REPO") or "/repo"
 ROOT = os.path.dirname(os.path.abspath(__file__))
 
 
